@@ -105,8 +105,8 @@ def real_outcome(text=None, path=None, budget=5):
 NAMEPOOL = ['Ann', 'Bob Lee', 'Cid/*x*/Q', 'D#e', 'Éve Ünal', 'F [g]', 'Γιώργος', '(H)', 'I=J', '0', '-1', 'K.']
 
 
-def abstract_election(rng, maxc=6):
-    nc = rng.randint(2, maxc)
+def abstract_election(rng, maxc=6, nc=None):
+    nc = nc or rng.randint(2, maxc)
     cands = list(range(1, nc + 1))
     wd = [c for c in cands if rng.random() < 0.2]
     if len(wd) > nc - 1:
@@ -116,8 +116,12 @@ def abstract_election(rng, maxc=6):
     seats = rng.randint(1, len(elig))
     lines = []
     for _ in range(rng.randint(1, 8)):
-        k = rng.randint(1, nc)
+        k = rng.randint(1, min(nc, 8))
         r = rng.sample(cands, k)
+        if nc > 200 and rng.random() < 0.7:
+            r[rng.randrange(len(r))] = nc          # the highest candidate id is ranked
+            r = list(dict.fromkeys(r))
+            k = len(r)
         ranks = []
         i = 0
         eq = rng.random() < 0.25
@@ -141,7 +145,7 @@ def abstract_election(rng, maxc=6):
             lines[0]['m'] = len(elig) + 2
             lines[0]['ranks'] = [[c] for c in elig]
     tie = rng.sample(cands, nc) if rng.random() < 0.5 else None
-    nicks = ['n%s%d' % (chr(96 + c), c) for c in cands] if rng.random() < 0.4 else None
+    nicks = ['n%s%d' % (chr(97 + c % 26), c) for c in cands] if rng.random() < 0.4 else None
     names = [rng.choice(NAMEPOOL) + ' %d' % c if rng.random() < 0.5 else 'c%d' % c for c in cands]
     e = dict(nc=nc, seats=seats, wd=wd, und=und, lines=lines, tie=tie, nicks=nicks, names=names,
              title=rng.choice(['T', 'An Election', 'Élection /* not a comment */ 2010', 'T # x']),
@@ -196,7 +200,14 @@ def render_wf(rng, e):
     if e['tie']:
         rest.append('[tie %s]' % sep().join(ref(c) for c in e['tie']) if rng.random() < 0.3 else '[tie %s]' % ' '.join(ref(c) for c in e['tie']))
     if e['wd']:
-        if rng.random() < 0.5:
+        r0 = rng.random()
+        if len(e['wd']) >= 2 and r0 < 0.4:
+            # withdrawals may be declared in several places: they accumulate
+            k = rng.randint(1, len(e['wd']) - 1)
+            first, second = e['wd'][:k], e['wd'][k:]
+            a = ' '.join('-%d' % c for c in first) if rng.random() < 0.5 else '[withdrawn %s]' % ' '.join(ref(c) for c in first)
+            rest.append(a + ' [withdrawn %s]' % ' '.join(ref(c) for c in second))
+        elif r0 < 0.7:
             rest.append('[withdrawn %s]' % ' '.join(ref(c) for c in e['wd']))
         else:
             rest.append(' '.join('-%d' % c for c in e['wd']))
@@ -230,7 +241,7 @@ def render_wf(rng, e):
 # ----------------------------------------------------------------------------------------
 ALPHABET = ['0', '1', '2', '3', '4', '-1', '-2', '-9', '00', '1=2', '2=1=3', '1=1', '=', '[tie', '[nick', '[droop', '[withdrawn', '[undeclared', '[bogus]',
             '1]', '2]', 'a]', ']', '[tie]', '(', ')', '(x)', '(y', 'z)', '"a"', '"b', 'c"', '"', '""', '/*', '*/', '/*x*/', '#', '#x', 'a', 'na', 'nb',
-            'x=y', '256', '-0', '+1', '1.5', '٣', '"t"']
+            'x=y', '256', '-0', '+1', '1.5', '٣', '²', '①', '1³', '➁', '2=²', '"t"']
 BASES = [
     '3 2 4 1 2 0 3 2 3 0 2 3 0 1 1 3 0 0 "A" "B" "C" "Title"',
     '4 2 [nick na nb nc nd] [tie nd nc nb na] -3 2 na nb 0 1 nb=nc nd 0 3 nd 0 0 "A B" "C" "D" "E" "T" "src" "cmt"',
@@ -268,6 +279,9 @@ def edge_texts(rng):
             out.append('%d 1 [undeclared %d %d] %s %s' % (nc, w, rng.choice(ids), body, names))
             out.append('%d 1 [withdrawn %d] %s %s' % (nc, nc + 1, body, names))
             out.append('%d %d %s %s' % (nc, rng.choice([0, nc, nc + 1]), body, names))
+            out.append('%d %d -%d %s %s' % (nc, nc, w, body, names))                 # seats = candidates listed, one withdrawn
+            out.append('%d %d [withdrawn %s] %s %s' % (nc, nc - 1, ' '.join(map(str, ids[:2])), body, names))
+            out.append('%d 1 [withdrawn %s] %s %s' % (nc, ' '.join(map(str, ids)), body, names))       # everybody withdrawn
             out.append('%d 1 -%d %d %d 0 0 %s' % (nc, w, 1, w, names))
             out.append('%d 1 (a) 1 0 (a) 2 0 (b) %s 0 0 %s' % (nc, ' '.join(map(str, ids)), names))
             out.append('%d 1 2 1 1 0 %s %s' % (nc, body, names))
